@@ -1024,11 +1024,18 @@ pub fn check_echo(
     let aligned = !tx.outputs.iter().any(|o| o.optional) && !tx.directives.iter().any(|x| matches!(x, Directive::Publish { .. }));
     if aligned && live.len() == d.outputs.len() {
         for (spec, o) in live.iter().zip(d.outputs.iter()) {
-            if let Some(DatumSpec::Rec(q)) | Some(DatumSpec::Spread(q, _)) = &spec.datum {
-                if let Some(v) = q_val(q, args) {
+            // (constructor tag, value of the first field) the datum must carry
+            let want: Option<(u64, Option<i128>)> = match &spec.datum {
+                Some(DatumSpec::Rec(q)) | Some(DatumSpec::Spread(q, _)) => Some((121, q_val(q, args))),
+                Some(DatumSpec::Misc { shape: 0, q, .. }) | Some(DatumSpec::Misc { shape: 3, q, .. }) => Some((121, q_val(q, args).and_then(|v| 0i128.checked_sub(v)))),
+                Some(DatumSpec::Misc { shape: 2, q, .. }) => Some((122, q_val(q, args))),
+                _ => None,
+            };
+            if let Some((tag, v)) = want {
+                if let Some(v) = v {
                     rep.probe(&format!("echo-datum:{}", range_class(v)));
                     let got = match &o.datum {
-                        Some(ciborium::value::Value::Tag(121, inner)) => inner
+                        Some(ciborium::value::Value::Tag(tg, inner)) if *tg == tag => inner
                             .as_array()
                             .and_then(|a| a.first())
                             .and_then(crate::txread::as_int),
